@@ -33,7 +33,7 @@ SeqSet(s) == {s[i] : i \in 1..Len(s)}
 SameMsg(a, b) == a.m = b.m /\ a.top = b.top /\ a.plen = b.plen /\ a.psum = b.psum /\ a.q = b.q /\ a.ret = b.ret
 
 Init == /\ started = FALSE /\ cmds = <<>> /\ subsS = {} /\ phase = "idle" /\ resubId = 0
-        /\ cfg = [clean |-> FALSE, validate |-> TRUE, resub |-> TRUE] /\ calls = {} /\ obs = {} /\ acked = FALSE
+        /\ cfg = [clean |-> FALSE, validate |-> TRUE, resub |-> TRUE, qs |-> 100] /\ calls = {} /\ obs = {} /\ acked = FALSE
 
 Queued == {i \in 1..Len(cmds) : cmds[i].st = "queued"}
 HeadQ == CHOOSE i \in Queued : \A j \in Queued : i <= j
@@ -59,6 +59,14 @@ Enqueue(c) ==
   /\ ~\E d \in calls : d.m = "stop" /\ d.enq
   /\ calls' = (calls \ {c}) \cup {[c EXCEPT !.enq = TRUE]}
   /\ cmds' = Append(cmds, [a |-> c.a, kind |-> c.m, arg |-> c.arg, st |-> "queued", pid |-> 0, fut |-> "pending", name |-> ""])
+  /\ UNCHANGED <<started, subsS, phase, resubId, cfg, obs, acked>>
+
+\* silent: the command queue stayed full for QueueTimeout: the call gives up, its future is cancelled, the command is never carried out
+GiveUp(c) ==
+  /\ c \in calls /\ ~c.enq /\ c.m \in {"publish", "subscribe", "unsubscribe"}
+  /\ Cardinality(Queued) >= cfg.qs
+  /\ calls' = (calls \ {c}) \cup {[c EXCEPT !.enq = TRUE]}
+  /\ cmds' = Append(cmds, [a |-> c.a, kind |-> c.m, arg |-> c.arg, st |-> "done", pid |-> 0, fut |-> "cancelled", name |-> ""])
   /\ UNCHANGED <<started, subsS, phase, resubId, cfg, obs, acked>>
 
 \* silent: Stop acquired the mutex (from here to its return no command can be queued)
